@@ -3,7 +3,7 @@
    wrapping it (the library's recover + %w) and that the library's allocation sequence does not
    depend on the limit are contracts of the Arrow library; they are checked by correspondence on
    every run (consumer under many limits), not proved. *)
-From Verif Require Import Base.ListX Mem.Allocator.
+From Verif Require Import Base.ListX Mem.Allocator Stream.Abandon.
 
 (* For every well-bracketed sequence of client operations (allocate / resize a held block, also
    shrinking — the uint64 wrap-around cancels — / free a held block): in-use is exactly the sum of
@@ -44,3 +44,12 @@ Example C14_example :
       (snd (crun ({| inuse := 0; limit := 100 |}, []) [CAlloc 60; CAlloc 50; CRealloc 0 20; CAlloc 50; CFree 0; CAlloc 45])) =
   [false; true; false; false; false; false].
 Proof. vm_compute. reflexivity. Qed.
+
+(* After a batch abandoned at some payload (memory-limit refusal, damaged payload) the sub-streams of the unread payloads have
+   missed messages.  With the failure marks of the `fix:` commit, for every history of batches and every failure pattern no
+   payload is ever decoded out of step with its sub-stream (stale dictionaries: index-out-of-range panic or wrong strings);
+   the code before the fix could (Abandon.legacy_out_of_step). *)
+Theorem C14_never_out_of_step : forall h,
+  Forall (Forall (fun o => o <> Decoded false)) (history true st0 h).
+Proof. intros h. exact (never_out_of_step h st0 in_sync_st0). Qed.
+Print Assumptions C14_never_out_of_step.
